@@ -178,6 +178,15 @@ def ctorLine : P String := do
           let O ← P.nat; let om ← tab3 A S O
           pure (some { b with O := O, Om := om }, false, false, none)
         else pure (some b, false, false, none)
+    | "clone" => do
+        -- source of the very same class: the implicit C++ copy constructor; the getters must be reproduced exactly
+        let sp ← srcP pomdp
+        let m := sp.src
+        let st : St := { S := m.S, A := m.A, O := sp.O, disc := m.disc,
+                         T := mk3 m.A m.S m.S (fun a s s1 => get3 m.T s a s1),
+                         R := mk2 m.S m.A (fun s a => get3 m.R s a 0),
+                         Om := mk3 m.A m.S sp.O (fun a s o => get3 sp.om s a o) }
+        pure (some st, false, false, none)
     | "copy" => do
         let sp ← srcP pomdp
         let b := copyBase kb sp.src
